@@ -125,6 +125,12 @@ def handle (op : String) (j : Json) : Option (Except String Json) :=
     let A ← J.op (← J.field j "A")
     let ig ← J.bool (← J.field j "ignore")
     .ok (ofExcept ofDCH (getDiagonalCoulomb tol A (← optNat j "n") ig))
+  | "c08.qh_exact" => some do
+    let A ← J.op (← J.field j "A")
+    .ok (Json.bool (qhExact tol A))
+  | "c08.dch_exact" => some do
+    let A ← J.op (← J.field j "A")
+    .ok (Json.bool (dchExact tol A))
   | "c08.mk_dch" => some do
     let h ← parseDCH j
     .ok (ofExcept ofDCH (mkDCH h.n h.one h.two h.c))
